@@ -1,5 +1,6 @@
 (* C02 - soundness of callVariant.  Level S: theorems about the specification Model/Spec.v; the engine
    is tied to `realizable` by the correspondence harness/props/c02.py only. *)
+From MoPep Require Gen.Expasy Model.ExpasyRef Proofs.ExpasyProofs.
 From MoPep Require Import Model.Base Model.Rule Model.Digest Model.Spec Model.SpecStmt Gen.Bio
                           Proofs.SpecProofs Model.Retry Proofs.RetryProofs Model.W2F Model.SpecAlt Model.SpecAltStmt Proofs.SpecAltProofs
                           Model.SpecFusion Proofs.SpecFusionProofs.
@@ -99,3 +100,10 @@ Definition ex_input2 : input :=
 Example realizable_nonvacuous :
   realizable ex_input2 [77;65;75;68;87;82] = true /\ realizable ex_input2 [77;65;75;71;87;82] = false.
 Proof. vm_compute. split; reflexivity. Qed.
+
+(* The oracle of this property digests with the rule tables regenerated from expasy_rules.py
+   (coq/Gen/Expasy.v); they must be the ExPASy reference rules (same obligation as in Props/C10.v),
+   otherwise model and implementation would silently follow a changed rule together. *)
+Theorem rules_are_expasy_reference : MoPep.Gen.Expasy.site_rules = MoPep.Model.ExpasyRef.reference_rules.
+Proof. exact MoPep.Proofs.ExpasyProofs.rules_match_reference_proof. Qed.
+Print Assumptions rules_are_expasy_reference.
